@@ -3,6 +3,7 @@ From Coq Require Import ZArith QArith List.
 From KV Require Import Base.Outcome Base.Num C19.Model C19.ProofsEasing C06.Model C06.Dur C06.Proofs C06.Proofs2.
 From KV Require Import C06.ProofsFollow C06.ModelOwners C06.ProofsOwners C03.Model C06.OwnersSound C06.ProofsOwnersSound C06.ProofsOwnersC12.
 From KV Require Base.IEEE C17.Model C12.Model C06.ProofsOwnersMod C06.RunOwners.
+From KV Require Import C05.ProofsSpeed C06.ProofsTypes.
 Import ListNotations.
 Local Open Scope Q_scope.
 
@@ -496,3 +497,80 @@ Theorem stagnant_unless_modulator_refuted :
     p_raw p2 == -4 /\
     (exists x : Q, raw_of pwq lerpq (at_dist 50) (FromDist dist_map) = Some x /\ x == -20 /\ ~ p_raw p2 == x).
 Proof. exact stagnant_unless_modulator_refuted_proof. Qed.
+
+(** * Tweenable types that do not interpolate by plain [a + (b - a) t]; tweens that reach their parameter through
+    a constructor *)
+
+(** [Parameter<ClockSpeed>]: for every partition of time, once complete the speed is identically the target;
+    before that it is, IN THE UNIT OF THE TARGET, start + (target - start) * ease(elapsed / duration). *)
+Theorem clock_speed_tween_law :
+  forall (powf : Q -> Q -> Q) (p : param Q (cspeed Q)) (tg : cspeed Q) (tw : tween Q) (l : list (Q * info Q)),
+    not_delayed (tw_start tw) -> (tw_dur tw <> 0)%Z -> l <> [] ->
+    let D := ns_to_secs_Q (tw_dur tw) in
+    exists p', runV powf (cspeed Q) cspeed_interpolate (param_set p (Fixed tg) tw) (updatesV (cspeed Q) l) = Ok p' /\
+      if completes (tw_start tw) D 0 l
+      then p_state p' = Idle (Fixed tg) /\ p_raw p' = tg
+      else same_unit (p_raw p') tg /\
+           in_unit_of tg (p_raw p') ==
+             in_unit_of tg (p_raw p)
+             + (in_unit_of tg tg - in_unit_of tg (p_raw p))
+               * ease powf (tw_easing tw) (ndiv (elapsed (tw_start tw) 0 l) D).
+Proof. exact clock_speed_law_from_set. Qed.
+
+(** "Interpolate every clock speed in ticks per second", refuted (1 s/tick -> 0.5 s/tick, halfway: 2/3, not 3/4). *)
+Theorem clock_speed_interpolated_in_tps_refuted :
+  exists (a tg : cspeed Q) (x : Q),
+    0 < x /\ x < 1 /\
+    ~ in_unit_of tg (interpolate_in_tps a tg x) == in_unit_of tg a + (in_unit_of tg tg - in_unit_of tg a) * x.
+Proof. exact interpolate_in_tps_not_the_law. Qed.
+
+(** Any value type: a ZERO-duration tween whose start is pending (delay still counting, clock not there) leaves
+    the value exactly where it was and stays in force, its delay counted down ... *)
+Theorem tween_zero_duration_pending_holds :
+  forall (powf : Q -> Q -> Q) (V : Type) (interp : V -> V -> Q -> V)
+         (p : param Q V) (v0 tg : V) (tw : tween Q) (dt : Q) (i : info Q) (d : Z),
+    p_state p = Tweening v0 (Fixed tg) 0 tw -> p_stagnant p = false -> tw_dur tw = 0%Z ->
+    pending (tw_start tw) i -> secs_to_ns_Q dt = Ok d ->
+    exists p', updV powf V interp p dt i = Ok (p', false) /\ p_raw p' = p_raw p /\ p_prev p' = p_raw p /\
+      p_stagnant p' = false /\
+      p_state p' = Tweening v0 (Fixed tg) 0
+                     {| tw_start := match tw_start tw with Delayed rem => Delayed (sat_sub rem d) | s => s end;
+                        tw_dur := 0; tw_easing := tw_easing tw |}.
+Proof. exact zero_duration_pending. Qed.
+
+(** ... and is the target, exactly and at rest, at the first update at which its start has come. *)
+Theorem tween_zero_duration_any_type :
+  forall (powf : Q -> Q -> Q) (V : Type) (interp : V -> V -> Q -> V)
+         (p : param Q V) (v0 tg : V) (tw : tween Q) (dt : Q) (i : info Q),
+    p_state p = Tweening v0 (Fixed tg) 0 tw -> p_stagnant p = false -> tw_dur tw = 0%Z ->
+    counts (tw_start tw) i = true -> 0 <= dt ->
+    updV powf V interp p dt i =
+      Ok ({| p_state := Idle (Fixed tg); p_raw := tg; p_prev := p_raw p; p_stagnant := true |}, true).
+Proof. exact zero_duration_started. Qed.
+
+(** The fade-in tween of a sound's settings is given to the fade parameter as it is -- start time and zero
+    duration included: the parameter is created at silence and set towards 0 dB with that very tween ... *)
+Theorem fade_in_tween_reaches_parameter :
+  forall (V : Type) (silence identity : V) (tw : tween Q),
+    let f := fade (psm_new V silence identity (Some tw)) in
+    p_state f = Tweening silence (Fixed identity) 0 tw /\ p_raw f = silence /\ p_prev f = silence /\
+    p_stagnant f = false.
+Proof. exact fade_in_reaches_parameter. Qed.
+
+(** ... so a sound played with a zero-duration fade-in is silent as long as the tween's start is pending ... *)
+Theorem fade_in_zero_duration_silent_until_start :
+  forall (powf : Q -> Q -> Q) (V : Type) (interp : V -> V -> Q -> V) (silence identity : V)
+         (tw : tween Q) (dt : Q) (i : info Q) (d : Z),
+    tw_dur tw = 0%Z -> pending (tw_start tw) i -> secs_to_ns_Q dt = Ok d ->
+    exists m', psm_update powf V interp identity (psm_new V silence identity (Some tw)) dt i = Ok (m', false) /\
+      ps m' = Playing /\ p_raw (fade m') = silence /\ p_prev (fade m') = silence.
+Proof. exact fade_in_zero_duration_pending_silent. Qed.
+
+(** ... and at 0 dB, at rest, after the first update at which it has come. *)
+Theorem fade_in_zero_duration_takes_effect :
+  forall (powf : Q -> Q -> Q) (V : Type) (interp : V -> V -> Q -> V) (silence identity : V)
+         (tw : tween Q) (dt : Q) (i : info Q),
+    tw_dur tw = 0%Z -> counts (tw_start tw) i = true -> 0 <= dt ->
+    exists m', psm_update powf V interp identity (psm_new V silence identity (Some tw)) dt i = Ok (m', false) /\
+      ps m' = Playing /\ p_raw (fade m') = identity /\ p_state (fade m') = Idle (Fixed identity).
+Proof. exact fade_in_zero_duration_started_identity. Qed.
